@@ -278,7 +278,14 @@ pub fn check_inf(c: &InfCase, ctx: &mut Ctx) -> CheckResult {
         }
     }
     // a solved result must satisfy the C01 oracle for the user's data
-    if out1.status == clarabel::solver::SolverStatus::Solved {
+    // (not when a kept row carries a right-hand side of 1e15 or more - a bound-valued entry capped in a cone that is
+    // not reduced: the data then span more than the double range can resolve, the starting point already meets
+    // the relative termination test at objective ~1e39, and membership "up to rounding" has no meaning)
+    let huge_kept = ps.b.iter().zip(&dropped).any(|(v, d)| !*d && v.min(b0).abs() >= 1e15);
+    if huge_kept {
+        ctx.label("solved-oracle-skipped:kept-rhs>=1e15");
+    }
+    if out1.status == clarabel::solver::SolverStatus::Solved && !huge_kept {
         let tol = Tols { feas: c.st.tol_feas, gap_abs: c.st.tol_gap_abs, gap_rel: c.st.tol_gap_rel };
         check_optimality(ps, &out1, &dropped, &tol, b0, true, "Solved (with reductions)")?;
     }
